@@ -3,7 +3,76 @@
 // Contracts for the govc verifier (/verif). Comment-only: this file contains no code.
 package gzip
 
-//@ func NewGzipHandler
-//@   trusted
+//@ // ---- C17: compression is decided once, only when it may be, and never changes status or content ----------
+//@ spec fun compressable(h http.Header, ct *regexp.Regexp) bool = hget(h, "Content-Encoding") == "" && reMatch(ct, hget(h, "Content-Type"))
+//@
+//@ func isCompressable
+//@   props C17
+//@   requires contentTypes != nil
 //@   assigns nothing
+//@   ensures nopanic
+//@   ensures result == compressable(header, contentTypes)
+//@
+//@ func acceptsGzip
+//@   props C17
+//@   requires r != nil && len(blacklistedAcceptContentTypes) == 1 && blacklistedAcceptContentTypes[0] == "text/event-stream"
+//@   assigns nothing
+//@   ensures nopanic
+//@   ensures result == (!strContains(hget(r.Header, "Accept"), "text/event-stream") && strContains(hget(r.Header, "Accept-Encoding"), "gzip"))
+//@   loop 1 invariant forall k int :: 0 <= k && k <= rangeindex ==> !strContains(hget(r.Header, "Accept"), blacklistedAcceptContentTypes[k])
+//@
+//@ func NewGzipResponseWriter
+//@   props C17
+//@   assigns nothing
+//@   ensures nopanic
+//@   ensures fresh(result) && result.writer == nil && result.gzipWriter == nil && result.ResponseWriter == w && result.contentTypes == contentTypes
+//@
+//@ func (*GzipResponseWriter).WriteHeader
+//@   props C17
+//@   requires grw != nil && grw.ResponseWriter != nil && grw.contentTypes != nil
+//@   assigns grw.writer, grw.gzipWriter, lastStatus, statusWrites, mapsOf(map[string][]string), hdr1, hdrHas, inPool, gzClosed, gzTarget
+//@   ensures nopanic
+//@   // the status code is forwarded unchanged, on every call
+//@   ensures lastStatus == code && statusWrites == old(statusWrites) + 1
+//@   // the decision is taken once
+//@   ensures old(grw.writer) != nil ==> grw.writer == old(grw.writer) && grw.gzipWriter == old(grw.gzipWriter) && hdr1 == old(hdr1) && hdrHas == old(hdrHas)
+//@   // compress exactly when the response is not already encoded and its content type matches
+//@   ensures old(grw.writer) == nil && old(compressable(respHeader(grw.ResponseWriter), grw.contentTypes)) ==> grw.gzipWriter != nil && typeIs(grw.writer, *gzip.Writer) && unbox(grw.writer, *gzip.Writer) == grw.gzipWriter && gzTarget[grw.gzipWriter] == grw.ResponseWriter && hget(respHeader(grw.ResponseWriter), "Content-Encoding") == "gzip" && !hhas(respHeader(grw.ResponseWriter), "Content-Length")
+//@   ensures old(grw.writer) == nil && !old(compressable(respHeader(grw.ResponseWriter), grw.contentTypes)) ==> grw.writer == grw.ResponseWriter && grw.gzipWriter == old(grw.gzipWriter) && hdr1 == old(hdr1) && hdrHas == old(hdrHas)
+//@   ensures grw.writer != nil
+//@
+//@ func (*GzipResponseWriter).Write
+//@   props C17
+//@   requires grw != nil && grw.ResponseWriter != nil && grw.contentTypes != nil
+//@   assigns grw.writer, grw.gzipWriter, lastStatus, statusWrites, mapsOf(map[string][]string), hdr1, hdrHas, inPool, gzClosed, gzTarget, wr, ioWrites, lastWrite
+//@   ensures nopanic
+//@   // an implicit 200 is sent only when no status was written before
+//@   ensures old(grw.writer) != nil ==> statusWrites == old(statusWrites) && grw.writer == old(grw.writer)
+//@   ensures old(grw.writer) == nil ==> statusWrites == old(statusWrites) + 1 && lastStatus == 200
+//@   // every byte goes unmodified to the chosen writer
+//@   ensures grw.writer != nil && wr[grw.writer] == old(wr)[grw.writer] + string(b[:result0])
+//@
+//@ func (*GzipResponseWriter).Close
+//@   props C17
+//@   requires grw != nil
+//@   requires grw.gzipWriter != nil ==> !inPool[grw.gzipWriter]
+//@   assigns inPool, gzClosed
+//@   ensures nopanic
+//@   // the compressor is finished before it goes back to the pool
+//@   ensures grw.gzipWriter != nil ==> gzClosed[grw.gzipWriter] && inPool[grw.gzipWriter]
+//@
+//@ func NewGzipHandler
+//@   props C17
+//@   assigns nothing
+//@   ensures nopanic
 //@   ensures result != nil
+//@
+//@ // the wrapper: Vary is announced, the wrapped handler runs exactly once - behind the compressing writer exactly when the
+//@ // client accepts gzip - and the compressing writer is closed (once) after the handler has returned
+//@ func NewGzipHandler$1
+//@   props C17
+//@   requires w != nil && r != nil && h != nil && contentTypes != nil
+//@   requires len(blacklistedAcceptContentTypes) == 1 && blacklistedAcceptContentTypes[0] == "text/event-stream"
+//@   requires accessAdmitted && authAccepted && lastLookup != nil && accessTarget == lastLookup
+//@   assigns *
+//@   ensures upstreamCalls == old(upstreamCalls) + 1
